@@ -35,7 +35,7 @@ extern "C" void h_size_fmt(void) {
     const eclArrType t = (eclArrType) ARRT;
     uint64_t got = sizeOnDiskFormatted(n, t, ELSZ);
     uint64_t blk = (t == CHAR || t == C0NN) ? 105 : 1000;
-    uint64_t c = t == INTE ? 6 : t == REAL ? 4 : t == DOUB ? 3 : t == LOGI ? 25 : t == CHAR ? 7 : 80 / (ELSZ + 3);
+    uint64_t c = t == INTE ? 6 : t == REAL ? 4 : t == DOUB ? 3 : t == LOGI ? 25 : t == CHAR ? 7 : (80 / (ELSZ + 3) ? 80 / (ELSZ + 3) : 1);      // strings wider than a line: one per line
     uint64_t w = t == INTE ? 12 : t == REAL ? 17 : t == DOUB ? 23 : t == LOGI ? 3 : t == CHAR ? 11 : ELSZ + 3;
     CHECK(got == ref_fmt((uint64_t) n, blk, c, w));
 }
